@@ -1,17 +1,23 @@
 import extract
-from rules import c04, common
+from rules import c04, c04c, c01, common
 
 
 def run(res, tier, replay=None):
     prog = extract.load_program("default", only={"bignum.c", "eval.c", "sexp.c", "bit.c", "vm.c", "opcodes.c"})
     res.functions = sum(1 for _ in prog.all_funcs())
     c04.run(prog, res)
+    c04c.run(prog, res, prims=c01.primitives(prog))
     res.assumptions = common.ASSUMPTIONS
     res.explanation = (
-        "C04, one clause: every value returned by the generic arithmetic entry points (sexp_add/sub/mul/div/quotient/remainder, "
+        "C04, two clauses. (c) numbers are immutable: every in-place store to a bignum's sign or a flonum's value is followed - "
+        "along feasible paths for the object's origin (fresh allocation / copy, or an operand, or whatever a callee may hand back "
+        "unchanged: passthrough summaries from the callees' return statements), then through the helpers that take a destination - "
+        "up to the functions Scheme code reaches with its own values (VM arithmetic entry points, opcodes[] and foreign functions), "
+        "none of which may modify (a part of) an operand. (a) every value returned by the generic arithmetic entry points (sexp_add/sub/mul/div/quotient/remainder, "
         "expt, exact-sqrt, inexact->exact, the SRFI-151 bit operations, the ratio operations, the number reader) that may come from "
         "a raw bignum/ratio producer passes through sexp_bignum_normalize / sexp_ratio_normalize first (forward may-taint dataflow; "
         "producers inferred from the allocation sites and closed over the representation helpers). Not decided: digit-level "
         "correctness of add/sub/Karatsuba/division, number parsing/printing, the 128-bit helper type.")
     if tier == "thorough":
-        common.thorough_mutations(res, "C04", {"C04": lambda p, r: c04.run(p, r)})
+        common.thorough_mutations(res, "C04", {"C04": lambda p, r: c04.run(p, r),
+                                                   "C04.c": lambda p, r: c04c.run(p, r, floor=0, prims=c01.primitives(p))})
